@@ -34,7 +34,7 @@ CLAIM = {
             'outer tangents touching both circles with parallel radii in the documented order (None exactly when one circle is inside the '
             'other), three-point arcs start / end at the given points with the sweep sign of the orientation determinant, length = radius x '
             '|sweep|, point_at_length = point_at_fraction = the expected lattice-angle point, cached boxes equal the exact box. Seeded random '
-            'instances (radii up to 16, centres up to +-20, Pythagorean directions up to hypotenuse 65, six scales) extend the sizes.',
+            'instances (radii up to 16, centres up to +-20, Pythagorean directions up to hypotenuse 65, six scales) extend the sizes. A third of the seeded constructions live far from the origin; tangent points from points up to 1e8 radii away and circles / arcs through nearly-in-line triples (sine of the turn down to 2e-4) are judged by derived relative residuals (ops tanfar, arc3far).',
     'design_ref': 'DESIGN.md section 6 C11',
     'note': 'Trusted: TLC, the harness projection, the cosine table of the Z_16 lattice. Exhaustive only over the bounded lattice families; '
             'general-position real inputs are represented by Pythagorean (exactly rational) configurations and random lattice instances. '
